@@ -134,6 +134,14 @@ def mutate(doc, r, twins=False, depth=3):
         if r.random() < 0.3:
             return mutate(out, r, twins, depth)
         return out
+    if twins and isinstance(doc, (int, float)) and c < 0.5:
+        # the cross-type twin of a number: equal in Python (1 == 1.0 == True), different as data
+        if isinstance(doc, bool):
+            return int(doc) if c < 0.25 else float(doc)
+        if isinstance(doc, int) and not isinstance(doc, bool):
+            return float(doc) if c < 0.3 or doc not in (0, 1) else bool(doc)
+        if float(doc).is_integer() and abs(doc) < 2 ** 31:
+            return int(doc)
     if isinstance(doc, str) and c < 0.6:
         if doc and c < 0.2:
             i = r.randrange(len(doc))
@@ -324,9 +332,20 @@ def random_csv_pair(r, opts):
     import os
     import tempfile
     from graphtage import csv as gcsv
-    rows = [[r.choice(WORDS) or "x" for _ in range(r.randint(1, 4))] for _ in range(r.randint(1, 5))]
-    rows2 = [list(row) for row in rows]
-    for _ in range(r.randint(0, 3)):
+    mode = r.random()
+    if mode < 0.12:
+        # degenerate tables: no rows at all, only blank lines (rows without cells), in different numbers
+        rows = [[] for _ in range(r.randint(0, 3))]
+        rows2 = [[] for _ in range(r.randint(0, 3))]
+        if r.random() < 0.3:
+            rows2.insert(r.randint(0, len(rows2)), [r.choice(WORDS) or "x"])
+        nmut = 0
+    else:
+        rows = [[r.choice(WORDS) if mode < 0.3 else (r.choice(WORDS) or "x") for _ in range(r.randint(0 if mode < 0.3 else 1, 4))]
+                for _ in range(r.randint(1, 5))]
+        rows2 = [list(row) for row in rows]
+        nmut = r.randint(0, 3)
+    for _ in range(nmut):
         c = r.random()
         if rows2 and c < 0.3:
             del rows2[r.randrange(len(rows2))]
@@ -334,7 +353,10 @@ def random_csv_pair(r, opts):
             rows2.insert(r.randint(0, len(rows2)), [r.choice(WORDS) or "y" for _ in range(r.randint(1, 4))])
         elif rows2 and c < 0.8:
             row = rows2[r.randrange(len(rows2))]
-            row[r.randrange(len(row))] = r.choice(WORDS) or "z"
+            if row:
+                row[r.randrange(len(row))] = r.choice(WORDS) or "z"
+            else:
+                row.append("w")
         elif rows2:
             row = rows2[r.randrange(len(rows2))]
             if r.random() < 0.5 and len(row) > 1:
@@ -349,6 +371,65 @@ def random_csv_pair(r, opts):
         with os.fdopen(fd, "w", newline="") as f:
             csv.writer(f).writerows(rws)
         trees.append(gcsv.build_tree(path, build_options(opts)))
+        os.unlink(path)
+    return trees[0], trees[1]
+
+
+def random_loaded_pair(r, opts):
+    """A random pair of documents written to files and read back by the real loaders (YAML incl. multi-document
+    streams, JSON5, JSON) with the build options: what the command does, as opposed to build() above."""
+    import json
+    import os
+    import tempfile
+    import graphtage
+    import yaml
+    from .common import scratch
+    fmt = r.choice(("yaml", "yaml-stream", "yaml-stream", "json5", "json", "xml", "html"))
+    if fmt in ("xml", "html"):
+        import xml.etree.ElementTree as ET
+        ea = random_xml_element(r, 2)
+        eb = mutate_xml(ea, r)
+        trees = []
+        for e in (ea, eb):
+            text = ET.tostring(e)
+            if fmt == "html":
+                text = b"<html><body>" + text + b"</body></html>"
+            fd, path = tempfile.mkstemp(suffix="." + fmt, dir=scratch())
+            with os.fdopen(fd, "wb") as f:
+                f.write(text)
+            trees.append(graphtage.FILETYPES_BY_TYPENAME[fmt].build_tree(path, build_options(opts)))
+            os.unlink(path)
+        return trees[0], trees[1]
+    if fmt == "yaml-stream":
+        a = [random_doc(r, depth=r.choice((0, 1, 2))) for _ in range(r.randint(2, 4))]
+        c = r.random()
+        if c < 0.3:
+            b = a[1:]                                   # head removed
+        elif c < 0.5:
+            b = a[1:] + [random_doc(r, depth=1)]        # shifted, same length
+        elif c < 0.7:
+            b = a[:1] + [random_doc(r, depth=1)] + a[1:]
+        else:
+            b = mutate(a, r)
+            if not isinstance(b, list):
+                b = [b, a[0]]
+        while len(b) < 2:
+            b = b + [random_doc(r, depth=1)]
+    else:
+        a = random_doc(r, depth=r.choice((1, 2, 3)))
+        b = mutate(a, r)
+    trees = []
+    for d in (a, b):
+        fd, path = tempfile.mkstemp(suffix="." + fmt.split("-")[0], dir=scratch())
+        with os.fdopen(fd, "w") as f:
+            if fmt == "yaml":
+                yaml.safe_dump(d, f)
+            elif fmt == "yaml-stream":
+                yaml.safe_dump_all(d, f)
+            else:
+                json.dump(d, f)
+        ft = graphtage.FILETYPES_BY_TYPENAME[fmt.split("-")[0]]
+        trees.append(ft.build_tree(path, build_options(opts)))
         os.unlink(path)
     return trees[0], trees[1]
 
